@@ -10,6 +10,7 @@ import (
 	"encoding/json"
 	"fmt"
 	"os"
+	"os/exec"
 	"path/filepath"
 	"sort"
 	"strings"
@@ -192,4 +193,93 @@ func runThorough(w *World, repo, mutDir, prop string, withConfigs bool) map[stri
 	}
 	fmt.Printf("   sensitivity corpus for %s: broken variants reported %d/%d, equivalent variants silent %d/%d, skipped %d\n", prop, fired, expFire, silent, expSilent, skipped)
 	return res
+}
+
+// ---------------------------------------------------------------- seeded changes (written by independent sub-agents)
+
+type seedMeta struct {
+	ID         string              `json:"id"`
+	Property   string              `json:"property"`
+	DetectedBy map[string][]string `json:"detected_by"`
+}
+
+// runSeeds applies every seeded change that concerns the property to a throw-away copy of the current tree (under the
+// system temp dir, removed at once), re-runs the property's rules on the copy (statically) and records the outcome.
+func runSeeds(repo, verifDir, prop string) map[string]interface{} {
+	metas, _ := filepath.Glob(filepath.Join(verifDir, "seeded", "*", "meta.json"))
+	sort.Strings(metas)
+	type outcome struct {
+		ID      string   `json:"id"`
+		Outcome string   `json:"outcome"`
+		Rules   []string `json:"rules_fired,omitempty"`
+	}
+	var outs []outcome
+	reported, total, skipped := 0, 0, 0
+	for _, mf := range metas {
+		b, err := os.ReadFile(mf)
+		if err != nil {
+			continue
+		}
+		var sm seedMeta
+		if json.Unmarshal(b, &sm) != nil {
+			continue
+		}
+		if _, ok := sm.DetectedBy[prop]; !ok && sm.Property != prop {
+			continue
+		}
+		tmp, err := os.MkdirTemp("", "gochk-seed-")
+		if err != nil {
+			continue
+		}
+		o := outcome{ID: sm.ID}
+		func() {
+			defer os.RemoveAll(tmp)
+			cp := exec.Command("cp", "-r", repo+"/.", tmp)
+			if out, err := cp.CombinedOutput(); err != nil {
+				o.Outcome = "skipped: copy failed " + string(out)
+				return
+			}
+			os.RemoveAll(filepath.Join(tmp, ".git"))
+			ap := exec.Command("git", "apply", "--unsafe-paths", "--directory="+tmp, filepath.Join(filepath.Dir(mf), "patch.diff"))
+			ap.Dir = tmp
+			if out, err := ap.CombinedOutput(); err != nil {
+				o.Outcome = "skipped: patch no longer applies to the current tree"
+				_ = out
+				return
+			}
+			w, err := LoadWorld(tmp, nil, nil)
+			if err != nil {
+				o.Outcome = "load-error"
+				return
+			}
+			rep := runProp(w, prop)
+			rep.finish(nil)
+			rules := map[string]bool{}
+			for _, ob := range rep.Obls {
+				if ob.Status == stViolated || ob.Status == stUndecided {
+					rules[ob.Rule] = true
+				}
+			}
+			o.Rules = sortedKeys(rules)
+			if len(rules) > 0 {
+				o.Outcome = "reported"
+			} else {
+				o.Outcome = "silent"
+			}
+		}()
+		switch {
+		case strings.HasPrefix(o.Outcome, "skipped"):
+			skipped++
+		default:
+			total++
+			if o.Outcome == "reported" {
+				reported++
+			} else {
+				fmt.Printf("   seeded change %s: %s for %s\n", sm.ID, o.Outcome, prop)
+			}
+		}
+		outs = append(outs, o)
+	}
+	fmt.Printf("   seeded changes concerning %s: reported %d/%d, skipped %d\n", prop, reported, total, skipped)
+	return map[string]interface{}{"reported": fmt.Sprintf("%d/%d", reported, total), "skipped": skipped, "outcomes": outs}
 }
